@@ -176,10 +176,36 @@ fn ser_run<T: Serialize>(x: &T, fail_at: Option<usize>, hr: bool) -> (Result<(),
     (r, rec)
 }
 
-fn de_run<T: DeserializeOwned>(script: &Script) -> (Result<T, SimErr>, DeState) {
+fn de_run_plain<T: DeserializeOwned>(script: &Script) -> (Result<T, SimErr>, DeState) {
     let mut st = DeState::default();
     let r = T::deserialize(TopDe { script, state: &mut st });
     (r, st)
+}
+
+/// Both entry points serde offers: `Deserialize::deserialize` and the (overridable, provided) `deserialize_in_place`,
+/// the latter into a place that already holds a *different* value, so lanes that are not overwritten show. They must agree:
+/// the same verdict, and on success the same value. A disagreement is reported through the `Err` / value the caller judges.
+fn de_run<T: DeserializeOwned + GlamTy>(script: &Script) -> (Result<T, SimErr>, DeState) {
+    let (r, st) = de_run_plain::<T>(script);
+    // sentinel: elements no plan produces
+    let sent: Vec<T::E> = (0..T::N).map(|i| T::E::from_bits64(match T::E::KIND { Elem::Bool => 1, Elem::F32 => 0x4F00_0000 + i as u64, Elem::F64 => 0x41E0_0000_0000_0000 + i as u64, _ => 113 + i as u64 })).collect();
+    let mut place = T::from_elems(&sent);
+    let mut st2 = DeState::default();
+    let r2 = serde::Deserialize::deserialize_in_place(TopDe { script, state: &mut st2 }, &mut place);
+    match (&r, r2) {
+        (Ok(v), Ok(())) => {
+            if v.to_elems().iter().map(|e| e.to_bits64()).collect::<Vec<_>>() != place.to_elems().iter().map(|e| e.to_bits64()).collect::<Vec<_>>() {
+                // make the in-place result the one that is judged: it differs from what `deserialize` says
+                return (Ok(place), st2);
+            }
+            (r, st)
+        }
+        (Err(_), Err(_)) => (r, st),
+        // in-place accepted what `deserialize` rejects: judge the in-place value (the plan expects a rejection)
+        (Err(_), Ok(())) => (Ok(place), st2),
+        // in-place rejected what `deserialize` accepts
+        (Ok(_), Err(e)) => (Err(SimErr::Custom(format!("deserialize accepted the sequence but deserialize_in_place rejected it: {e:?}"))), st2),
+    }
 }
 
 fn serde_case<T>(plan: &Plan, v: &Val) -> CaseOut
